@@ -73,6 +73,17 @@ def run(ck, prog, tier, load):
                 g1.append((bb, k[2]))
         ok = bool(g1) and all(k == 1 for bb, k in g1)
         ck.ob("C10-a.length-from-group-1", b.npath.split("::")[-1], ok and len(g1) >= 2, b, g1[0][0] if g1 else None, "matched length is taken from capture group 1 in both regex arms (indices used: %s)" % [k for bb, k in g1])
+    # every recorded segment is the group looked up BY NAME with the name paired with that slot: a positional
+    # lookup is shifted by any group inside a user-supplied segment regex
+    segs = agg_sites(cm, r"PathItem::Segment$")
+    ck.anchor("C10-a", len(segs), 2, "PathItem::Segment constructions in capture_match_info_fn")
+    for i, (bb, st, e) in enumerate(segs):
+        by_name = [c for c in e_calls(e, r"Captures.*::name$")]
+        positional = [c for c in e_calls(e, r"Captures.*::get$|Captures.*Index")]
+        lookups = [(b2, t) for b2, t in cm.calls(r"Captures.*::name$") if cm.dominates(b2, bb)]
+        names_ok = bool(by_name) and bool(lookups) and all(e_calls(cm.op_expr(t["args"][1]), r"Iterator::enumerate$") for b2, t in lookups)
+        ck.ob("C10-a.segment-by-name", "capture_match_info_fn|arm#%d" % i, names_ok and not positional, cm, bb,
+              "the recorded start/end come from captures.name(name) with `name` drawn from the enumerated names table (positional group numbers are shifted by groups inside custom segment regexes): %s" % short(e, 5))
     # capture_match_info_fn: no mutation of the path before check_fn accepted
     chk = [bb for bb, t in cm.calls(r"FnOnce.*::call_once$")]
     muts = [bb for bb, t in cm.calls(r"actix_router::path::Path.*::(add|skip)$")]
